@@ -530,3 +530,20 @@ func truncate(s string, n int) string {
 	}
 	return s
 }
+
+var knownCache []KnownFinding
+var knownLoaded bool
+
+// knownFor returns the recorded (not fixed) finding for an obligation name, if any.
+func knownFor(obl string) *KnownFinding {
+	if !knownLoaded {
+		knownCache = loadKnown()
+		knownLoaded = true
+	}
+	for i := range knownCache {
+		if knownCache[i].Status == "known" && knownCache[i].Obligation == obl {
+			return &knownCache[i]
+		}
+	}
+	return nil
+}
